@@ -910,7 +910,10 @@ vbi_xds_demux_feed		(vbi_xds_demux *	xd,
 			log ("XDS ignore packet 0x%x/0x%02x, "
 			     "unknown class or subclass\n",
 			     xds_class, xds_subclass);
-			goto discard;
+			/* Interrupts the current packet like a caption
+			   code, but must not discard its data. */
+			xd->curr_sp = NULL;
+			break;
 		}
 
 		sp = &xd->subpacket[xds_class][i];
